@@ -1,21 +1,25 @@
-(* Obligation C20/poisson_rate_zero_point_mass.  Statement as printed by Coq from Inferno.C20.DistProofs; proof by reference.
+(* Obligation C20/poisson_rate_zero_point_mass.  Statement as printed by Coq from Inferno.C20.DistPoisson; proof by reference.
    This file contains nothing else, so the statement cannot be weakened quietly. *)
 From Coq Require Import Reals List ZArith Bool.
 From Coquelicot Require Import Coquelicot.
 From Flocq Require Import Core.Raux.
-From Inferno Require Import Base.Num Base.NumR C20.Model C20.Spec C20.DistProofs.
+From Inferno Require Import Base.Num Base.NumR Gen.Distributions C20.Model C20.Spec C20.DistPoisson.
 Import ListNotations.
 Open Scope R_scope.
-Theorem poisson_rate_zero_point_mass : (forall k : nat, poisson_pmf_ext RN k 0 = (if k =? 0 then 1 else 0)) /\
-  (forall k : nat, poisson_logpmf_ext RN k 0 = None <-> k <> 0%nat) /\
+Theorem poisson_rate_zero_point_mass : forall (lg : R -> R) (g : R -> R -> R),
+  lgamma_spec lg ->
+  gammaincc_spec g ->
+  (forall k : nat, poisson_pmf_ext RN lg k 0 = (if k =? 0 then 1 else 0)) /\
+  (forall k : nat, poisson_logpmf_ext RN lg k 0 = None <-> k <> 0%nat) /\
   (forall s : R,
    0 <= s ->
-   poisson_cdf RN s 0 = 1 /\
-   poisson_logcdf RN s 0 = 0 /\
-   poisson_cdf RN s 0 = sum_n (fun j : nat => poisson_pmf_ext RN j 0) (Z.to_nat (Zfloor s))) /\
-  is_series (fun k : nat => poisson_pmf_ext RN k 0) 1 /\
-  is_series (fun k : nat => INR k * poisson_pmf_ext RN k 0) (poisson_mean RN 0) /\
-  is_series (fun k : nat => (INR k - poisson_mean RN 0) ^ 2 * poisson_pmf_ext RN k 0)
+   poisson_cdf RN g s 0 = 1 /\
+   poisson_logcdf RN g s 0 = 0 /\
+   poisson_cdf RN g s 0 =
+   sum_n (fun j : nat => poisson_pmf_ext RN lg j 0) (Z.to_nat (Zfloor s))) /\
+  is_series (fun k : nat => poisson_pmf_ext RN lg k 0) 1 /\
+  is_series (fun k : nat => INR k * poisson_pmf_ext RN lg k 0) (poisson_mean RN 0) /\
+  is_series (fun k : nat => (INR k - poisson_mean RN 0) ^ 2 * poisson_pmf_ext RN lg k 0)
     (poisson_variance RN 0).
-Proof. exact (@Inferno.C20.DistProofs.poisson_rate_zero_point_mass). Qed.
+Proof. exact (@Inferno.C20.DistPoisson.poisson_rate_zero_point_mass). Qed.
 Print Assumptions poisson_rate_zero_point_mass.
